@@ -132,8 +132,16 @@ class ActionsFamily:
             ops += [{'op': 'act', 'target': target_for(rng, wf), 'action': action, 'options': options_for(rng, action, wf)}, {'op': 'quiesce'}, {'op': 'snapshot', 'level': 'rows'}]
         rt = rng.choice([{'flavor': 'current'}, {'flavor': 'current', 'chaos': {'max_yields': 3, 'seed': rng.randrange(1, 1 << 40)}}, {'flavor': 'multi', 'workers': 2, 'chaos': {'max_yields': 2, 'seed': rng.randrange(1, 1 << 40)}}])
         keep = rng.random() < opts.get('keep', 0.8)     # default configuration: an ended process is removed, every later action must be refused
+        if keep:
+            ops += [{'op': 'probe_acts', 'pid': 'p1', 'evict': True}, {'op': 'quiesce'}]
         sc = {'id': '', 'family': 'actions', 'sched': rt['flavor'], 'seed': rng.randrange(1 << 30), 'runtime': rt, 'engine': {'store': opts.get('store', 'mem'), 'keep_processes': keep},
               'models': [json.dumps(wf)], 'responder': {'rules': []}, 'ops': ops}
+        if opts.get('mirror'):
+            # two acknowledging clients with the same (empty) filter: each of them gets every message
+            sc['channels'] = [{'id': 'main', 'ack': True}, {'id': 'second', 'ack': True, 'events': False}]
+            sc['sched'] += '-twoack-' + sc['engine']['store']
+            if sc['engine']['store'] == 'sqlite':
+                sc['watchdog_ms'] = 60000
         return {'scenarios': [sc], 'meta': {'wf': wf, 'kind': kind, 'sub': 'matrix'}, 'digest': digest([wf, ops]), 'nontrivial': True}
 
     def gen_twins(self, rng, idx, opts):
@@ -177,7 +185,7 @@ class ActionsFamily:
                     # the scheduler takes a few turns (not all it needs) before the next action arrives
                     ops.append({'op': 'yield', 'n': rng.randint(1, 6)})
             ops += [{'op': 'quiesce'}, {'op': 'snapshot', 'level': 'rows'}]
-        ops += [{'op': 'run'}, {'op': 'snapshot', 'level': 'rows'}]
+        ops += [{'op': 'run'}, {'op': 'snapshot', 'level': 'rows'}, {'op': 'probe_acts', 'pid': 'p1', 'evict': True}, {'op': 'quiesce'}]
         rt = rng.choice([{'flavor': 'current'}, {'flavor': 'current'}, {'flavor': 'current', 'chaos': {'max_yields': 3, 'seed': rng.randrange(1, 1 << 40)}}, {'flavor': 'multi', 'workers': 2, 'chaos': {'max_yields': 2, 'seed': rng.randrange(1, 1 << 40)}}])
         sc = {'id': '', 'family': 'actions', 'sched': 'b2b-' + rt['flavor'], 'seed': rng.randrange(1 << 30), 'runtime': rt, 'engine': {'store': 'mem', 'keep_processes': True},
               'models': [json.dumps(wf)], 'responder': {'mode': 'quiescent', 'rules': [{'match': {'uses': IRQ}, 'action': 'next', 'times': 100}]}, 'ops': ops}
@@ -200,7 +208,7 @@ class ActionsFamily:
                    {'op': 'act', 'target': {'pid': 'p1', 'key': 'k1', 'state': 'interrupted'}, 'action': rng.choice(['next', 'next', 'skip', 'submit']), 'options': {}},
                    {'op': 'yield', 'n': rng.randint(0, 5)},
                    {'op': 'act', 'target': {'pid': 'p1', 'key': 'k3', 'state': 'interrupted'}, 'action': action, 'options': options},
-                   {'op': 'quiesce'}, {'op': 'snapshot', 'level': 'rows'}, {'op': 'run'}, {'op': 'snapshot', 'level': 'rows'}]
+                   {'op': 'quiesce'}, {'op': 'snapshot', 'level': 'rows'}, {'op': 'run'}, {'op': 'snapshot', 'level': 'rows'}, {'op': 'probe_acts', 'pid': 'p1', 'evict': True}, {'op': 'quiesce'}]
             # seeded yields in the queue senders: the scheduler gets through a part of its work per turn
             rt = {'flavor': 'current', 'chaos': {'max_yields': rng.choice([1, 2, 2, 3]), 'seed': rng.randrange(1, 1 << 40)}}
             sc = {'id': '', 'family': 'actions', 'sched': 'b2b-late-branches-' + rt['flavor'], 'seed': rng.randrange(1 << 30), 'runtime': rt, 'engine': {'store': 'mem', 'keep_processes': True},
@@ -228,7 +236,7 @@ class ActionsFamily:
             ops.append({'op': 'act', 'target': {'pid': 'p1', 'key': key, 'state': 'interrupted'}, 'action': action, 'options': options_for(rng, action, wf, 0.9)})
             if rng.random() < 0.3:
                 ops.append({'op': 'yield', 'n': rng.randint(1, 6)})
-        ops += [{'op': 'quiesce'}, {'op': 'snapshot', 'level': 'rows'}, {'op': 'run'}, {'op': 'snapshot', 'level': 'rows'}]
+        ops += [{'op': 'quiesce'}, {'op': 'snapshot', 'level': 'rows'}, {'op': 'run'}, {'op': 'snapshot', 'level': 'rows'}, {'op': 'probe_acts', 'pid': 'p1', 'evict': True}, {'op': 'quiesce'}]
         rt = rng.choice([{'flavor': 'current'}, {'flavor': 'current'}, {'flavor': 'multi', 'workers': 2, 'chaos': {'max_yields': 2, 'seed': rng.randrange(1, 1 << 40)}}])
         sc = {'id': '', 'family': 'actions', 'sched': 'b2b-tail-' + rt['flavor'], 'seed': rng.randrange(1 << 30), 'runtime': rt, 'engine': {'store': 'mem', 'keep_processes': True},
               'models': [json.dumps(wf)], 'responder': {'mode': 'quiescent', 'rules': [{'match': {'uses': IRQ}, 'action': 'next', 'times': 100}]}, 'ops': ops}
@@ -241,7 +249,7 @@ class ActionsFamily:
         for _ in range(rng.randint(2, 4)):
             action = rng.choice(['next', 'abort', 'skip', 'error', 'submit', 'remove', 'back'])
             calls.append({'target': {'pid': 'p1', 'kind': 'act', 'state': 'interrupted', 'occ': rng.choice([0, 0, 1, -1])}, 'action': action, 'options': options_for(rng, action, wf, 0.9)})
-        ops = [{'op': 'start', 'mid': 'm1', 'vars': {'pid': 'p1'}}, {'op': 'quiesce'}, {'op': 'race', 'calls': calls}, {'op': 'quiesce'}, {'op': 'snapshot', 'level': 'rows'}, {'op': 'run'}, {'op': 'snapshot', 'level': 'rows'}]
+        ops = [{'op': 'start', 'mid': 'm1', 'vars': {'pid': 'p1'}}, {'op': 'quiesce'}, {'op': 'race', 'calls': calls}, {'op': 'quiesce'}, {'op': 'snapshot', 'level': 'rows'}, {'op': 'run'}, {'op': 'snapshot', 'level': 'rows'}, {'op': 'probe_acts', 'pid': 'p1', 'evict': True}, {'op': 'quiesce'}]
         rt = {'flavor': 'multi', 'workers': rng.choice([2, 4]), 'chaos': {'max_yields': 2, 'pause_us': rng.choice([0, 50]), 'seed': rng.randrange(1, 1 << 40)}}
         sc = {'id': '', 'family': 'actions', 'sched': 'duel', 'seed': rng.randrange(1 << 30), 'runtime': rt, 'engine': {'store': 'mem', 'keep_processes': True},
               'models': [json.dumps(wf)], 'responder': {'mode': 'quiescent', 'rules': [{'match': {'uses': IRQ}, 'action': 'next', 'times': 100}]}, 'ops': ops}
